@@ -95,6 +95,15 @@ def gen_workflow(rng, mode='mixed'):
             seen.add(tup)
             rel = (p['stage'] == st) and rng.random() < 0.55
             c['refs'].append(compile_ref(None if rel else p['stage'], p['name'], f, m))
+            # a second reference to the SAME producer with another file/method: both must be rewired
+            if rng.random() < 0.2:
+                f2 = rng.choice(FILES)
+                m2 = rng.choice(METHODS[:3])
+                tup2 = (p['stage'], p['name'], f2, m2)
+                if tup2 not in seen and (f2, m2) != (f, m):
+                    seen.add(tup2)
+                    rel2 = (p['stage'] == st) and rng.random() < 0.55
+                    c['refs'].append(compile_ref(None if rel2 else p['stage'], p['name'], f2, m2))
         if rng.random() < 0.2:
             c['refs'].insert(rng.randrange(len(c['refs']) + 1), rng.choice(OTHER_REFS))
         if mode == 'mixed' and rng.random() < 0.006:
